@@ -107,12 +107,8 @@ def check_case(case) -> Outcome:
                 ok = False
             if not ok:
                 out.add('attr:defense_status', f'{n.full_name}: {n.defense_status!r} != {exp["defense"]}')
-        elif n.defense_status is not None:
-            out.add('attr:defense_status-on-non-defense', f'{n.full_name}: {n.defense_status!r}')
-        if 'exists' in exp and n.existence_status != exp['exists']:
+        if 'exists' in exp and (n.existence_status is None or bool(n.existence_status) != exp['exists']):
             out.add('attr:existence_status', f'{n.full_name}: {n.existence_status!r} != {exp["exists"]}')
-        if exp['type'] in ('exist', 'notExist') and not isinstance(n.existence_status, bool):
-            out.add('attr:existence_status-missing', f'{n.full_name}: {n.existence_status!r}')
     for key in expected:
         if seen[key] == 0:
             out.add('node-missing', f'{names[key[0]]}:{key[1]}')
